@@ -31,6 +31,13 @@ pub broadcast axiom fn axiom_arc_string_key_model()
 pub assume_specification<T: ?Sized, A: Allocator>[ <Arc<T, A> as AsRef<T>>::as_ref ](a: &Arc<T, A>) -> (r: &T)
     ensures r == &**a;
 
+/// `ToOwned for T: Clone` is defined in std as `self.clone()` / `*target = self.clone()`
+pub assume_specification<T: Clone>[ <T as std::borrow::ToOwned>::to_owned ](x: &T) -> (r: T)
+    ensures cloned::<T>(*x, r);
+
+pub assume_specification<T: Clone>[ <T as std::borrow::ToOwned>::clone_into ](x: &T, target: &mut T)
+    ensures cloned::<T>(*x, *final(target));
+
 pub broadcast group group_std_extra {
     axiom_hm_key_is_same,
     axiom_arc_string_key_model,
